@@ -180,3 +180,78 @@ fn c04_emit_unchanged_2_3() {
 fn c04_emit_unchanged_0_4() {
     emit_unchanged::<0, 4>();
 }
+
+// C04: removal of a carriage return that is followed only by escape sequences (real
+// `ingest_line_utf8`, real `rfind`, real `format!`): exactly the one '\r' byte goes, everything
+// before and after it stays, and a '\r' followed by visible text is left alone. The width
+// measurement and escape stripping (VTE iterator, out of reach) are replaced by their behaviour
+// on the lines used here.
+mod cr {
+    use super::super::*;
+    use std::mem::MaybeUninit;
+    use std::ptr::addr_of_mut;
+
+    // width of the text after the '\r': 0 for an escape sequence (or nothing), else its length
+    fn stub_measure_text_width(s: &str) -> usize {
+        let b = s.as_bytes();
+        if b.is_empty() || b[0] == 0x1b {
+            0
+        } else {
+            b.len()
+        }
+    }
+    fn stub_strip_ansi_codes(_s: &str) -> String {
+        String::new()
+    }
+
+    fn run(line: [u8; 6]) -> StateMachine<'static> {
+        let cfg: &'static mut MaybeUninit<Config> = Box::leak(Box::new(MaybeUninit::<Config>::uninit()));
+        let cp = cfg.as_mut_ptr();
+        unsafe {
+            addr_of_mut!((*cp).max_line_length).write(0);
+        }
+        let config: &'static Config = unsafe { &*cp };
+        let mut sm_mem = MaybeUninit::<StateMachine<'static>>::uninit();
+        let sp = sm_mem.as_mut_ptr();
+        unsafe {
+            addr_of_mut!((*sp).line).write(String::new());
+            addr_of_mut!((*sp).raw_line).write(String::new());
+            addr_of_mut!((*sp).config).write(config);
+        }
+        let mut v: Vec<u8> = Vec::with_capacity(6);
+        v.extend_from_slice(&line);
+        let s = unsafe { String::from_utf8_unchecked(v) };
+        unsafe { (*sp).ingest_line_utf8(s) };
+        unsafe { sm_mem.assume_init() }
+    }
+
+    #[kani::proof]
+    #[kani::unwind(10)]
+    #[kani::stub(crate::ansi::measure_text_width, stub_measure_text_width)]
+    #[kani::stub(crate::ansi::strip_ansi_codes, stub_strip_ansi_codes)]
+    fn c04_ingest_cr_before_escape() {
+        // "ab" "\r" <t> "[m"  with t either ESC (the tail is
+        // an escape sequence) or a letter (the tail is visible text)
+        check(false);
+        check(true);
+        kani::cover!(true, "end of harness reached");
+    }
+
+    // the line is concrete: with a symbolic byte in it the real format! does not finish
+    // symbolic execution (900 s); the solver still decides every panic / bounds check on the way
+    fn check(tail_visible: bool) {
+        let x = b'b';
+        let t = if tail_visible { b'c' } else { 0x1b };
+        let sm = run([b'a', x, b'\r', t, b'[', b'm']);
+        let raw = sm.raw_line.as_bytes();
+        if tail_visible {
+            assert!(raw.len() == 6, "a carriage return followed by visible text is kept");
+            assert!(raw[0] == b'a' && raw[1] == x && raw[2] == b'\r' && raw[3] == t && raw[4] == b'[' && raw[5] == b'm', "the line is unchanged");
+        } else {
+            assert!(raw.len() == 5, "only the carriage return is removed: the text before it and the escape sequence after it are kept");
+            assert!(raw[0] == b'a' && raw[1] == x, "text before the carriage return is kept");
+            assert!(raw[2] == 0x1b && raw[3] == b'[' && raw[4] == b'm', "the escape sequence after the carriage return is kept byte for byte");
+        }
+        std::mem::forget(sm);
+    }
+}
